@@ -78,9 +78,13 @@ def run_crosshair(modname, cond, tier, excludes, twin):
     fn, path, d, src = _gen_wrapper(modname, cond, tier, excludes, twin)
     timeout = cond.timeout.get(tier, 40)
     if twin:
-        timeout = min(timeout, 60)
+        timeout = min(timeout, 120)
     stats = collections.Counter()
-    opts = AnalysisOptionSet(analysis_kind=[AnalysisKind.PEP316], per_condition_timeout=float(timeout),
+    # CrossHair's default per-path budget is sqrt(per_condition_timeout) CPU seconds (7.7 s for a 60 s twin): a long
+    # whole-run scenario can exceed that on a loaded machine, every path is then abandoned and a reachable twin is
+    # reported as "Unable to meet precondition".  Give single paths a generous, explicit budget instead.
+    per_path = float(timeout) if twin else max(60.0, float(timeout) ** 0.5)
+    opts = AnalysisOptionSet(analysis_kind=[AnalysisKind.PEP316], per_condition_timeout=float(timeout), per_path_timeout=per_path,
                              report_all=True, max_uninteresting_iterations=sys.maxsize)
     t0 = time.time(); c0 = time.process_time()
     checkables = list(analyze_function(fn, opts))
